@@ -13,11 +13,11 @@ N19 = [('N19', r'((?:self|\w+)(?:\.\w+)+)\.get_unchecked_mut\(', r'vec_get_unche
        ('N19', r'((?:self|\w+)(?:\.\w+)+)\.get_unchecked\(', r'vec_get_unchecked(&\1, ')]
 N8 = [('N8', r"Self::AccessMut<'_>", '&mut T')]
 TRAIT = lambda m, labels: [E('trait.%s.%s' % (m, l), 'inherited postcondition of UnprotectedStorage::%s (%s)' % (m, l), p) for (l, p) in labels]
-METHODS = [('clean', [('empty', 'C04 C08'), ('wf', 'C04'), ('events', 'C12')]),
+METHODS = [('clean', [('empty', 'C04 C08'), ('wf', 'C04 C08'), ('events', 'C12')]),
            ('get', [('val', 'C04')]),
            ('get_mut', [('val', 'C04'), ('wf', 'C04'), ('frame', 'C04'), ('events', 'C12')]),
            ('insert', [('wf', 'C04'), ('val', 'C04'), ('frame', 'C04'), ('events', 'C12')]),
-           ('remove', [('val', 'C04 C08'), ('wf', 'C04'), ('frame', 'C04 C08'), ('events', 'C12')])]
+           ('remove', [('val', 'C04 C08'), ('wf', 'C04 C08'), ('frame', 'C04 C08'), ('events', 'C12')])]
 
 
 def add_dense(u, extra=''):
